@@ -460,7 +460,7 @@ func acctScenarios(prop, tier string) []acctScenario {
 				rgs: one, usedSyms: []string{"all", "over"}, reqs: []int32{100}, twoSess: true, twoUE: true},
 		}
 		if tier == "thorough" {
-			scs[0].depth, scs[1].depth, scs[2].depth, scs[3].depth, scs[4].depth = 5, 7, 6, 4, 5
+			scs[0].depth, scs[1].depth, scs[2].depth, scs[3].depth, scs[4].depth = 6, 8, 7, 5, 6
 			scs = append(scs, acctScenario{name: "1sess-rg1-u7-b1000-deep", accounts: []Account{{supiA, 1, "1000", "7"}}, prefix: []Op{mkCreate(0, "smf1")}, depth: 6,
 				rgs: one, usedSyms: []string{"zero", "half", "all", "over"}, reqs: []int32{30, 100}, extras: true})
 		}
@@ -484,7 +484,7 @@ func acctScenarios(prop, tier string) []acctScenario {
 		rgs: [][]int32{{1}, {2}, {1, 2}}, usedSyms: []string{"zero", "all"}, reqs: []int32{100}, extras: true})
 	if tier == "thorough" {
 		for i := range scs {
-			scs[i].depth += 2
+			scs[i].depth += 3
 		}
 	}
 	return scs
